@@ -9,6 +9,7 @@ import EmuVerif.Props.C10Bridge
 #print axioms EmuVerif.Props.C10Bridge.split_of_eigh_contract
 #print axioms EmuVerif.Props.C10Bridge.orthogonalize_canonical
 #print axioms EmuVerif.Props.C10Bridge.canonical_norm
+#print axioms EmuVerif.Props.C10Bridge.canonical_is_isometry_chain
 #print axioms EmuVerif.Props.C10Bridge.orthogonalize_amp_norm
 #print axioms EmuVerif.Props.C10Bridge.truncate_canonical
 #print axioms EmuVerif.Props.C10Bridge.truncate_norm
